@@ -220,6 +220,27 @@ func KeysNZ(d *Desc, n int) []reflect.Value {
 	return out[:n]
 }
 
+// FillerKeys returns n distinct non-zero keys that are none of the alphabet keys above (spread over
+// the buckets): used to fill a table up to its growth threshold.
+func FillerKeys(d *Desc, n int) []reflect.Value {
+	var out []reflect.Value
+	for i := 0; i < n; i++ {
+		switch d.KeyT {
+		case i32T:
+			out = append(out, reflect.ValueOf(int32(1000+i)))
+		case i64T:
+			out = append(out, reflect.ValueOf(int64(1000+i)))
+		case strT:
+			out = append(out, reflect.ValueOf(fmt.Sprintf("filler%d", i)))
+		case linkedKeyT:
+			out = append(out, reflect.ValueOf(HK{uint(1000 + i), 100 + i}))
+		default:
+			panic("FillerKeys: unsupported type " + d.KeyT.String())
+		}
+	}
+	return out
+}
+
 // KeyGen lets a harness choose the key alphabet ArgSets uses (default Keys).
 var KeyGen = Keys
 
